@@ -1,4 +1,4 @@
-"""Unit `shape`: the Shape-level tracing evaluator wrapper of fidget-core/src/shape/mod.rs on its real text (C14, binding clause).
+"""Unit `shape`: the Shape-level evaluator wrappers of fidget-core/src/shape/mod.rs on their real text (C14, binding clause; C11).
 
 `ShapeTracingEval::eval_raw` (generic over the evaluator `E: TracingEvaluator`, over the coordinate type `F: Into<E::Data>` and
 the variable-value type `V: Into<E::Data>`) is proved to call the wrapped evaluator on an argument vector in which, for
@@ -8,6 +8,14 @@ and whatever else is in `vars`; a variable of the map that is not supplied is th
 error; the inner evaluator's argument error is unreachable (the `unreachable!()` is an obligation).  The four public wrappers
 (`eval`, `eval_with_transform`, `eval_with_vars`, `eval_with_transform_and_vars`) are proved to be `eval_raw` with the
 corresponding arguments.
+
+`ShapeBulkEval::eval_raw` (generic over `E: BulkEvaluator` and over the closure that fills the rows of free variables), with
+`eval` and `eval_with_transform`: slices of different lengths are an error; the argument matrix has max(#variables, 1) rows of
+exactly n samples whatever the evaluator object held before; the closure is called once per free variable of the map with that
+variable's own row and index; the rows of the axes hold the (transformed) positions at the map's indices for every sample; the
+result is the first output row (n samples) of the wrapped evaluator on that matrix; no panic (both `unreachable!()` arms, every
+index, `BulkOutput::borrow`).  Hypotheses on the closure: it accepts every row, and it cannot change the length of the slice
+it is handed (no `&mut [T]` can; Verus does not know this by itself).
 
 Trusted: `VarMap` is an opaque stub (HashMap inside): `entries()` is the sequence its `iter()` yields, assumed to have
 distinct variables and distinct indices below `len()` (this is the content of `VarMap::insert`, bounded contract `flatten`);
@@ -23,7 +31,9 @@ SHAPE_RS = 'fidget-core/src/shape/mod.rs'
 VAR_RS = 'fidget-core/src/var/mod.rs'
 EVAL_RS = 'fidget-core/src/eval/mod.rs'
 TRACING_RS = 'fidget-core/src/eval/tracing.rs'
-PROPS = ['C14']
+PROPS = ['C14', 'C11']
+
+RESIZE_ANCHOR = None
 
 PRELUDE = r'''
 // =================== stand-ins for external types (trusted; listed as assumptions) ===================
@@ -65,6 +75,13 @@ impl FromSpecImpl<MissingVar> for ShapeTracingEvalError {
     open spec fn from_spec(e: MissingVar) -> Self { ShapeTracingEvalError::MissingVar(e) }
 }
 impl From<MissingVar> for ShapeTracingEvalError { fn from(e: MissingVar) -> (r: Self) { ShapeTracingEvalError::MissingVar(e) } }
+impl FromSpecImpl<MissingVar> for ShapeBulkEvalError {
+    open spec fn obeys_from_spec() -> bool { true }
+    open spec fn from_spec(e: MissingVar) -> Self { ShapeBulkEvalError::MissingVar(e) }
+}
+impl From<MissingVar> for ShapeBulkEvalError { fn from(e: MissingVar) -> (r: Self) { ShapeBulkEvalError::MissingVar(e) } }
+pub assume_specification<T, A: core::alloc::Allocator, F: FnMut() -> T>[ Vec::<T, A>::resize_with ](v: &mut Vec<T, A>, new_len: usize, f: F)
+    ensures final(v)@.len() == new_len;
 
 // =================== specification of binding ===================
 /// the conversion `Into<D>` of a coordinate or of a supplied variable value
@@ -81,6 +98,22 @@ pub open spec fn bind<D, V: Into<D>>(var: Var, x: D, y: D, z: D, vars: Map<VarIn
 pub open spec fn bound<D, V: Into<D>>(s: Seq<D>, m: VarMap, x: D, y: D, z: D, vars: Map<VarIndex, V>) -> bool {
     s.len() == m.entries().len()
     && forall|k: int| 0 <= k < m.entries().len() ==> s[(#[trigger] m.entries()[k]).1 as int] == bind::<D, V>(m.entries()[k].0, x, y, z, vars)
+}
+// ---- many-point wrapper
+pub open spec fn bsize<T>(vars: Seq<Vec<T>>) -> int { if vars.len() > 0 { vars[0]@.len() as int } else { 0 } }
+pub open spec fn rows_len<T>(m: Seq<Vec<T>>, n: int) -> bool { forall|k: int| 0 <= k < m.len() ==> (#[trigger] m[k])@.len() == n }
+/// the value an axis variable takes at sample i
+pub open spec fn axis_val<D: Transformable>(var: Var, xi: D, yi: D, zi: D, t: Option<&Matrix4<f32>>) -> D {
+    let c = if t is Some { D::tr(xi, yi, zi, t->Some_0) } else { (xi, yi, zi) };
+    match var { Var::X => c.0, Var::Y => c.1, Var::Z => c.2, Var::V(_) => c.0 }
+}
+/// rows of the axes hold the (transformed) positions for the first `upto` samples, at the map's indices
+pub open spec fn axis_bound<D: Transformable>(m: Seq<Vec<D>>, map: VarMap, x: Seq<D>, y: Seq<D>, z: Seq<D>, t: Option<&Matrix4<f32>>, upto: int) -> bool {
+    forall|k: int, i: int| 0 <= k < map.entries().len() && 0 <= i < upto && !(map.entries()[k].0 is V)
+        ==> (#[trigger] m[map.entries()[k].1 as int]@[i]) == axis_val(map.entries()[k].0, x[i], y[i], z[i], t)
+}
+pub open spec fn mat_ok<D: Transformable>(m: Seq<Vec<D>>, map: VarMap, x: Seq<D>, y: Seq<D>, z: Seq<D>, t: Option<&Matrix4<f32>>) -> bool {
+    m.len() == (if map.entries().len() >= 1 { map.entries().len() } else { 1 }) && rows_len(m, x.len() as int) && axis_bound(m, map, x, y, z, t, x.len() as int)
 }
 /// some variable of the map is not supplied
 pub open spec fn missing<V>(m: VarMap, vars: Map<VarIndex, V>) -> bool {
@@ -154,7 +187,7 @@ def build(repo, trace):
     i, j, k = rsx.find_item(sh, r'^trait Transformable\b', 0, 'trait Transformable')
     trf = sh[i:k].replace('trait Transformable', 'pub trait Transformable')
     trace.items.append((SHAPE_RS, 'struct ShapeTape, ShapeTape::vars, struct MissingVar, enum ShapeTracingEvalError, struct ShapeTracingEval, trait Transformable'))
-    trace.drop('impl Transformable for f32/Interval/Grad (nalgebra), ShapeBulkEval (closure with &mut slice argument), BoundShape, ShapeRenderHints')
+    trace.drop('impl Transformable for f32/Interval/Grad (nalgebra), BoundShape, ShapeRenderHints')
     body = hdr + '{\n' + '\n\n'.join(fns) + '\n}\n'
     body = body.replace('Matrix4<f32>', 'Matrix4<f32>')
     # drop-fmt-args has already turned assert_eq!(a, b, msg) into assert!(a == b)
@@ -168,8 +201,92 @@ def build(repo, trace):
     old = 'Err(TracingEvalError(TracingArgError::BadVarSlice(..))) => {'
     if body.count(old) != 1:
         raise ExtractError('eval_raw: error arm changed')
-    text = ('use vstd::prelude::*;\nuse vstd::std_specs::convert::*;\nverus! {\n' + vi + '\n\n' + var + '\n\n' + tae + '\n\npub struct TracingEvalError(pub TracingArgError);\n\n'
-            + tape_tr + '\n\n' + te + '\n\n' + st + '\n\nimpl<T: Tape> ShapeTape<T> {\n' + st_vars + '\n}\n\n' + mv + '\n\n' + ste + '\n\n' + sev + '\n\n' + trf + '\n\n' + body
+    # ---- bulk wrapper: BulkOutput, BulkEvaluator, ShapeBulkEvalError, ShapeBulkEval::{eval_raw, eval, eval_with_transform, no_vars}
+    bk = rsx.clean(open('%s/fidget-core/src/eval/bulk.rs' % repo).read(), trace)
+    bo = rsx.get_item(bk, r"^struct BulkOutput<'a, T>", 0, 'struct BulkOutput')
+    bo = bo.replace("struct BulkOutput<'a, T>", "pub struct BulkOutput<'a, T>").replace('    data:', '    pub data:').replace('    len:', '    pub len:')
+    bo_fns = []
+    for hdr_occ, name in ((0, 'new'), (None, 'borrow')):
+        found = None
+        for m in re.finditer(r"^impl<'a, T> BulkOutput<'a, T> \{", bk, re.M):
+            ob = m.end() - 1
+            cb = rsx.match_brace(bk, ob)
+            try:
+                i2, j2, k2 = rsx.find_fn(bk, name, ob, cb)
+                found = bk[rsx.line_start(bk, i2):k2]
+                break
+            except ExtractError:
+                continue
+        if found is None:
+            raise ExtractError('BulkOutput::%s not found' % name)
+        bo_fns.append(found)
+    i, j, k = rsx.find_item(bk, r'^trait BulkEvaluator\b', 0, 'trait BulkEvaluator')
+    be = bk[i:k].replace('trait BulkEvaluator', 'pub trait BulkEvaluator')
+    # R-deref: the generic parameter `V: Deref<Target = [Self::Data]>` of BulkEvaluator::eval is instantiated with Vec<Self::Data>
+    old_sig = 'fn eval<V: std::ops::Deref<Target = [Self::Data]>>('
+    if be.count(old_sig) != 1 or be.count('vars: &[V],') != 1:
+        raise ExtractError('R-deref: BulkEvaluator::eval changed')
+    be = be.replace(old_sig, 'fn eval(').replace('vars: &[V],', 'vars: &[Vec<Self::Data>],')
+    trace.fire('R-deref')
+    if not re.search(r'^struct BulkEvalError\(#\[from\] BulkArgError\);', bk, re.M):
+        raise ExtractError('BulkEvalError changed')
+    ms = rsx.get_item(va, r'^struct MismatchedSlices\b', 0, 'struct MismatchedSlices')
+    ms = re.sub(r'#\[error\([^\]]*\)\]\n', '', ms, flags=re.S)
+    ms = re.sub(r'#\[derive\([^\]]*\)\]\n', '', ms).replace('struct MismatchedSlices', 'pub struct MismatchedSlices')
+    bae = rsx.get_item(va, r'^enum BulkArgError\b', 0, 'enum BulkArgError')
+    bae = re.sub(r'^\s*#\[error\([^\]]*\)\]\n', '', bae, flags=re.M)
+    bae = re.sub(r'#\[derive\([^\]]*\)\]\n', '', bae).replace('#[from] ', '').replace('enum BulkArgError', 'pub enum BulkArgError')
+    sbe = rsx.get_item(sh, r'^enum ShapeBulkEvalError\b', 0, 'enum ShapeBulkEvalError')
+    sbe = re.sub(r'^\s*#\[error\([^\]]*\)\]\n', '', sbe, flags=re.M | re.S)
+    sbe = re.sub(r'#\[error\(.*?\)\]\n', '', sbe, flags=re.S)
+    sbe = re.sub(r'#\[derive\([^\]]*\)\]\n', '', sbe).replace('#[from] ', '').replace('enum ShapeBulkEvalError', 'pub enum ShapeBulkEvalError')
+    sbv = rsx.get_item(sh, r'^struct ShapeBulkEval<E: BulkEvaluator>', 0, 'struct ShapeBulkEval')
+    sbv = re.sub(r'#\[derive\([^\]]*\)\]\n', '', sbv).replace('struct ShapeBulkEval', 'pub struct ShapeBulkEval').replace('    eval: E,', '    pub eval: E,').replace('    scratch:', '    pub scratch:')
+    i, j, k = rsx.find_item(sh, r'^impl<E: BulkEvaluator> ShapeBulkEval<E>\nwhere', 0, 'impl ShapeBulkEval')
+    bhdr = sh[i:j]
+    bfns = []
+    for name in ['eval', 'eval_with_transform', 'no_vars', 'eval_raw']:
+        i2, j2, k2 = rsx.find_fn(sh, name, j + 1, k - 1)
+        bfns.append(sh[rsx.line_start(sh, i2):k2])
+        trace.items.append((SHAPE_RS, 'ShapeBulkEval::' + name))
+    trace.drop('ShapeBulkEval::{eval_with_vars, eval_with_var_arrays, .., var_value, var_array}: closures returned as `impl Fn` (the closure they build is the `copy_vars` argument of eval_raw, specified here by its hypotheses)')
+    bbody = bhdr + '{\n' + '\n\n'.join(bfns) + '\n}\n'
+    # the contract of eval_raw is placed after its `where` clause (Verus' order: signature, where, requires/ensures)
+    old_w = ') -> Result<&[E::Data], ShapeBulkEvalError>\n    where\n        F: Fn(&mut [E::Data], VarIndex) -> Result<(), ShapeBulkEvalError>,\n    {'
+    if bbody.count(old_w) != 1:
+        raise ExtractError('signature of ShapeBulkEval::eval_raw changed')
+    bbody = bbody.replace(old_w, ') -> (r: Result<&[E::Data], ShapeBulkEvalError>)\n    where\n        F: Fn(&mut [E::Data], VarIndex) -> Result<(), ShapeBulkEvalError>,\n/*@spec*/' + BULK_RAW.rstrip('\n') + '\n/*@endspec*/    {')
+    # R-armblock: the three axis arms of the entries loop get a block (a ghost witness is recorded there)
+    for ax, k in (('X', 0), ('Y', 1), ('Z', 2)):
+        o = '                Var::%s => axes[%d] = Some(index),\n' % (ax, k)
+        if bbody.count(o) != 1:
+            raise ExtractError('R-armblock: axis arm %s of ShapeBulkEval::eval_raw changed' % ax)
+        bbody = bbody.replace(o, '                Var::%s => { axes[%d] = Some(index); proof { k%s_ = q_ - 1; } }\n' % (ax, k, ax.lower()))
+        trace.fire('R-armblock')
+    # R-underscore-param: `_: T` parameter gets a name
+    bbody, n = re.subn(r'^(\s*)_: &mut \[E::Data\],', r'\1unused_: &mut [E::Data],', bbody, flags=re.M)
+    trace.fire('R-underscore-param', n)
+    # R-itermut: `for s in &mut self.scratch { s.resize(n, 0.0.into()); }`
+    # R-itermut: `for s in &mut V { s.resize(n, e); }` / `for s in &mut V[..K] { .. }` -> index loop over V (up to K)
+    pat = re.compile(r'        for s in &mut self\.scratch(\[\.\.(\w+)\])? \{\n            s\.resize\(n, 0\.0\.into\(\)\);\n        \}\n')
+    mm = pat.search(bbody)
+    if not mm or len(pat.findall(bbody)) != 1:
+        raise ExtractError('R-itermut: ShapeBulkEval::eval_raw resize loop changed')
+    bound = mm.group(2) if mm.group(1) else 'self.scratch.len()'
+    global RESIZE_ANCHOR
+    RESIZE_ANCHOR = 'while j_ < %s' % bound
+    bbody = bbody[:mm.start()] + ('        let mut j_: usize = 0;   // R-itermut\n        while j_ < %s {\n            self.scratch[j_].resize(n, 0.0.into());\n            j_ += 1;\n        }\n' % bound) + bbody[mm.end():]
+    trace.fire('R-itermut')
+    old = '        for (var, index) in vs.iter() {\n'
+    if bbody.count(old) != 1:
+        raise ExtractError('R-iter: loop header of ShapeBulkEval::eval_raw changed')
+    bbody = bbody.replace(old, '        let it_ = vs.iter_vec();   // R-iter: vs.iter() collected\n        let mut q_: usize = 0;\n        while q_ < it_.len() {\n            let (var, index) = it_[q_];\n            q_ += 1;\n')
+    trace.fire('R-iter')
+    bulk_text = (bo + "\n\nimpl<'a, T> BulkOutput<'a, T> {\n" + '\n\n'.join(bo_fns) + '\n}\n\n' + ms + '\n\n' + bae + '\n\npub struct BulkEvalError(pub BulkArgError);\n\n'
+                 + be + '\n\n' + sbe + '\n\n' + sbv + '\n\n' + bbody)
+    trace.items.append((SHAPE_RS, 'enum ShapeBulkEvalError, struct ShapeBulkEval'))
+    text = ('#![feature(allocator_api)]\nuse vstd::prelude::*;\nuse vstd::std_specs::convert::*;\nverus! {\n' + vi + '\n\n' + var + '\n\n' + tae + '\n\npub struct TracingEvalError(pub TracingArgError);\n\n'
+            + tape_tr + '\n\n' + te + '\n\n' + st + '\n\nimpl<T: Tape> ShapeTape<T> {\n' + st_vars + '\n}\n\n' + mv + '\n\n' + ste + '\n\n' + sev + '\n\n' + trf + '\n\n' + body + '\n' + bulk_text
             + '\n} // verus!\nfn main() {}\n')
     inj = Injector(text, trace)
     # spec twins and contracts inside the trait declarations (R-spec-in-trait)
@@ -203,18 +320,35 @@ def build(repo, trace):
     where
         Self: Sized,
         ensures r == Self::tr(x, y, z, mat);""" + inj.s[m.end():]
+    m = re.search(r'    fn eval\(\n        &mut self,\n        tape: &Self::Tape,\n        vars: &\[Vec<Self::Data>\],\n    \) -> Result<BulkOutput<\'_, Self::Data>, BulkEvalError>;', inj.s)
+    if not m:
+        raise ExtractError('BulkEvaluator::eval declaration changed')
+    inj.s = inj.s[:m.start()] + """    /// the output matrix (outputs x samples) the evaluator computes for a tape and an argument matrix
+    spec fn bulk_spec(tape: &Self::Tape, vars: Seq<Vec<Self::Data>>) -> Seq<Seq<Self::Data>>;
+    fn eval(
+        &mut self,
+        tape: &Self::Tape,
+        vars: &[Vec<Self::Data>],
+    ) -> (r: Result<BulkOutput<'_, Self::Data>, BulkEvalError>)
+        requires tape.vars_spec().wf()
+        ensures
+            r is Err <==> (vars@.len() < tape.vars_spec().entries().len() || exists|i: int| 0 <= i < vars@.len() && (#[trigger] vars@[i])@.len() != vars@[0]@.len()),
+            r is Ok ==> r->Ok_0.data@.len() == tape.noutputs() && r->Ok_0.len == bsize(vars@)
+                && (forall|k: int| 0 <= k < r->Ok_0.data@.len() ==> (#[trigger] r->Ok_0.data@[k])@.len() >= r->Ok_0.len)
+                && (forall|k: int, i: int| 0 <= k < tape.noutputs() && 0 <= i < bsize(vars@) ==> (#[trigger] r->Ok_0.data@[k]@[i]) == Self::bulk_spec(tape, vars@)[k][i]);""" + inj.s[m.end():]
     for q, (ret, t) in SPECS.items():
         inj.spec(q, ret, t)
     for (q, anchor, occ, before, proof) in PROOFS:
         inj.proof(q, anchor, proof, occ=occ, before=before)
     for (q, anchor, inv) in LOOPS:
-        inj.loop_inv(q, anchor, inv)
+        inj.loop_inv(q, RESIZE_ANCHOR if anchor == '@RESIZE@' else anchor, inv)
     inj.attr('ShapeTracingEval::eval_raw', '#[verifier::loop_isolation(false)]')
+    inj.attr('ShapeBulkEval::eval_raw', '#[verifier::loop_isolation(false)]')
     inj.append_items(PRELUDE)
-    fns = ['ShapeTape::vars', 'ShapeTracingEval::eval_raw', 'ShapeTracingEval::eval', 'ShapeTracingEval::eval_with_transform',
+    fns = ['BulkOutput::new', 'BulkOutput::borrow', 'ShapeBulkEval::eval_raw', 'ShapeBulkEval::eval', 'ShapeBulkEval::eval_with_transform', 'ShapeBulkEval::no_vars', 'ShapeTape::vars', 'ShapeTracingEval::eval_raw', 'ShapeTracingEval::eval', 'ShapeTracingEval::eval_with_transform',
            'ShapeTracingEval::eval_with_transform_and_vars', 'ShapeTracingEval::eval_with_vars']
     obls = [Obligation('shape::' + f, 'shape', f, props=PROPS) for f in fns]
-    return {'texts': {'base': inj.s}, 'obligations': obls, 'canary_fns': ['ShapeTracingEval::eval_raw', 'ShapeTracingEval::eval']}
+    return {'texts': {'base': inj.s}, 'obligations': obls, 'canary_fns': ['ShapeTracingEval::eval_raw', 'ShapeTracingEval::eval', 'ShapeBulkEval::eval_raw', 'ShapeBulkEval::eval']}
 
 
 COORD = "coords::<F, E::Data>(x, y, z, transform)"
@@ -241,8 +375,36 @@ def wrap_spec(tr, vars_m, vty, conv_req):
 """ % (conv_req, vars_m, vty, c, c, c, vars_m)
 
 
+BULK_RAW = """
+        requires tape.tape.vars_spec().wf(), tape.tape.noutputs() == 1,
+            // the closure accepts every row and cannot change the length of the slice it is handed (no `&mut [T]` can)
+            forall|a: &mut [E::Data], b: VarIndex| copy_vars.requires((a, b)),
+            forall|a: &mut [E::Data], b: VarIndex, r: Result<(), ShapeBulkEvalError>| copy_vars.ensures((a, b), r) ==> final(a)@.len() == a@.len(),
+        ensures
+            (x@.len() != y@.len() || x@.len() != z@.len()) ==> r is Err,
+            // one sample per input position; the axes rows of the argument matrix hold the (transformed) positions at the map's indices
+            r is Ok ==> r->Ok_0@.len() == x@.len()
+                && exists|m: Seq<Vec<E::Data>>| #[trigger] mat_ok(m, tape.tape.vars_spec(), x@, y@, z@, transform)
+                    && forall|i: int| 0 <= i < x@.len() ==> (#[trigger] r->Ok_0@[i]) == E::bulk_spec(&tape.tape, m)[0][i],
+"""
+
+BULK_WRAP = """
+        requires tape.tape.vars_spec().wf(), tape.tape.noutputs() == 1,
+        ensures
+            (x@.len() != y@.len() || x@.len() != z@.len()) ==> r is Err,
+            r is Ok ==> r->Ok_0@.len() == x@.len()
+                && exists|m: Seq<Vec<E::Data>>| #[trigger] mat_ok(m, tape.tape.vars_spec(), x@, y@, z@, %(t)s)
+                    && forall|i: int| 0 <= i < x@.len() ==> (#[trigger] r->Ok_0@[i]) == E::bulk_spec(&tape.tape, m)[0][i],
+"""
+
 RET = 'r: Result<(E::Data, Option<&E::Trace>), ShapeTracingEvalError>'
+BRET = 'r: Result<&[E::Data], ShapeBulkEvalError>'
 SPECS = {
+ 'BulkOutput::new': ('r: Self', '\n        ensures *r.data == *data, r.len == len\n'),
+ 'BulkOutput::borrow': ("r: &'a [T]", '\n        requires i < self.data@.len(), self.data@[i as int]@.len() >= self.len\n        ensures r@ == self.data@[i as int]@.subrange(0, self.len as int)\n'),
+ 'ShapeBulkEval::no_vars': ('r: Result<(), ShapeBulkEvalError>', '\n        ensures r is Err, final(unused_)@ == old(unused_)@\n'),
+ 'ShapeBulkEval::eval': (BRET, BULK_WRAP % {'t': 'None'}),
+ 'ShapeBulkEval::eval_with_transform': (BRET, BULK_WRAP % {'t': 'Some(transform)'}),
  'ShapeTracingEval::eval': (RET, wrap_spec('None', 'Map::<VarIndex, f32>::empty()', 'f32', '<f32 as IntoSpec<E::Data>>::obeys_into_spec(),')),
  'ShapeTracingEval::eval_with_transform': (RET, wrap_spec('Some(transform)', 'Map::<VarIndex, f32>::empty()', 'f32', '<f32 as IntoSpec<E::Data>>::obeys_into_spec(),')),
  'ShapeTracingEval::eval_with_transform_and_vars': (RET, wrap_spec('Some(transform)', 'vars.m()', 'V', '<V as IntoSpec<E::Data>>::obeys_into_spec(),')),
@@ -260,10 +422,35 @@ PROOFS = [
         }"""),
  ('ShapeTracingEval::eval_raw', 'return Err(MissingVar { var: i }.into());', 0, True, """                        proof { assert(vs.entries()[q_ - 1].0 is V && !vars.m().dom().contains(vs.entries()[q_ - 1].0->V_0)); }"""),
 ]
+PROOFS += [
+ ('ShapeBulkEval::eval_raw', '$START', 0, False, "        let ghost x0_ = x; let ghost y0_ = y; let ghost z0_ = z;"),
+ ('ShapeBulkEval::eval_raw', '        let mut j_: usize = 0;   // R-itermut', 0, True, "        let ghost nrows_ = self.scratch@.len();"),
+ ('ShapeBulkEval::eval_raw', 'let mut axes = [None; 3];', 0, False, "        let ghost mut kx_: int = -1; let ghost mut ky_: int = -1; let ghost mut kz_: int = -1;\n        proof { assert(rows_len(self.scratch@, n as int)); }"),
+ ('ShapeBulkEval::eval_raw', 'copy_vars(&mut self.scratch[index], i)?;', 0, False, "                    proof { assert(rows_len(self.scratch@, n as int)); }"),
+ ('ShapeBulkEval::eval_raw', '        let out = match self.eval.eval(', 0, True, """        proof {
+            assert(mat_ok(self.scratch@, tape.tape.vars_spec(), x0_@, y0_@, z0_@, transform));
+            assert(bsize(self.scratch@) == n);
+        }"""),
+]
 WRAP = {
  'ShapeTracingEval::eval': ('None', 'ShapeVars::<f32>::new().m()', 'f32'),
 }
 LOOPS = [
+ ('ShapeBulkEval::eval_raw', '@RESIZE@', """            invariant 0 <= j_ <= self.scratch@.len(), self.scratch@.len() == nrows_,
+                forall|k: int| 0 <= k < j_ ==> (#[trigger] self.scratch@[k])@.len() == n,
+            decreases self.scratch@.len() - j_"""),
+ ('ShapeBulkEval::eval_raw', 'while q_ < it_.len()', """            invariant
+                0 <= q_ <= it_.len(), self.scratch@.len() == nrows_, rows_len(self.scratch@, n as int),
+                forall|k: int| 0 <= k < q_ && (#[trigger] vs.entries()[k]).0 is X ==> axes@[0] == Some(vs.entries()[k].1),
+                forall|k: int| 0 <= k < q_ && (#[trigger] vs.entries()[k]).0 is Y ==> axes@[1] == Some(vs.entries()[k].1),
+                forall|k: int| 0 <= k < q_ && (#[trigger] vs.entries()[k]).0 is Z ==> axes@[2] == Some(vs.entries()[k].1),
+                axes@[0] is Some ==> (0 <= kx_ < q_ && vs.entries()[kx_] == (Var::X, axes@[0]->Some_0)),
+                axes@[1] is Some ==> (0 <= ky_ < q_ && vs.entries()[ky_] == (Var::Y, axes@[1]->Some_0)),
+                axes@[2] is Some ==> (0 <= kz_ < q_ && vs.entries()[kz_] == (Var::Z, axes@[2]->Some_0)),
+            decreases it_.len() - q_"""),
+ ('ShapeBulkEval::eval_raw', 'for i in 0..n', """            invariant
+                self.scratch@.len() == nrows_, rows_len(self.scratch@, n as int),
+                axis_bound(self.scratch@, *vs, x0_@, y0_@, z0_@, transform, i as int),"""),
  ('ShapeTracingEval::eval_raw', 'while q_ < it_.len()', """            invariant
                 0 <= q_ <= it_.len(), it_@ == vs.entries(), vs.wf(), *vs == tape.tape.vars_spec(), self.scratch@.len() == vs.entries().len(),
                 forall|k: int| 0 <= k < q_ ==> !((#[trigger] vs.entries()[k]).0 is V && !vars.m().dom().contains(vs.entries()[k].0->V_0)),
